@@ -6,9 +6,12 @@ cd /repo || exit 2
 if [ -n "$(git status --porcelain)" ]; then echo "/repo not clean"; exit 2; fi
 git apply "$patch" || { echo "patch does not apply"; exit 2; }
 cd /verif
+cp evidence/$prop.json /tmp/try_seeded.evidence 2>/dev/null
 ./dsim check "$prop" --budget "$budget" > /tmp/try_seeded.out 2>&1
 rc=$?
 git -C /repo checkout -- .
+# the evidence file describes the unchanged tree, not the mutated one
+cp /tmp/try_seeded.evidence evidence/$prop.json 2>/dev/null
 git -C /repo clean -fdq internal cmd 2>/dev/null
 echo "rc=$rc"
 grep -E "^(VIOLATION|SUMMARY|HARNESS|BUILD)" /tmp/try_seeded.out | head -6
